@@ -226,8 +226,31 @@ def gen_request(rng, zone_names):
             labels = extra + [l.swapcase() if rng.random() < 0.2 else l for l in base]
         else:
             labels = dnsgen.rand_labels(rng, 3)
-        if rng.random() < 0.03:
+        r_q = rng.random()
+        if r_q < 0.03:
             body += [0xC0, rng.choice([0, 4, 12])]          # QNAME that is a pointer
+        elif r_q < 0.05:
+            # a length octet of a reserved label type (0x40..0xbf) FOLLOWED BY THAT MANY OCTETS, so that a parser which
+            # takes it for an ordinary label finds a well-formed name behind it
+            first = rng.choice([0x80, 0x80, 0x81, 0xBF, 0x40, 0x41, 0x7F, rng.randrange(0x40, 0xC0)])
+            at = rng.randint(0, len(labels))
+            pre = []
+            for l in labels[:at]:
+                pre += [len(l)] + list(l)
+            body += pre + [first] + [rng.choice([0x61, 0x00, 0xFF]) for _ in range(first)] + enc_name(labels[at:])
+        elif r_q < 0.10 and labels:
+            # a sibling of the name whose LABEL CONTENT imitates a label boundary: `x<len><label>` instead of `<label>`,
+            # mostly at the first label of the zone name (wire-suffix comparisons that ignore label boundaries take it
+            # for a subdomain of the zone)
+            i = rng.randrange(len(labels))
+            if zone_names and rng.random() < 0.7:
+                zl = len(rng.choice(zone_names)[0])
+                if 0 < zl <= len(labels):
+                    i = len(labels) - zl
+            fake = bytes([rng.choice([0x78, 0x58])]) + bytes([len(labels[i])]) + labels[i]
+            if len(fake) <= 63:
+                labels = labels[:i] + [fake] + labels[i + 1:]
+            body += enc_name(labels)
         else:
             body += enc_name(labels)
         body += u16(rng.choice(QTYPES)) + u16(rng.choice(QCLASSES))
@@ -294,7 +317,7 @@ def gen_clean_case(rng):
         enc_name(labels) + u16(qtype) + u16(cl)
     for x in ar:
         msg += x
-    return f"{rng.choice(['u', 't', 't'])} {rng.choice([512, 1232, 4096])} {cat} - {hx(msg)}"
+    return single_zone_variant(rng, f"{rng.choice(['u', 't', 't'])} {rng.choice([512, 1232, 4096])} {cat} - {hx(msg)}")
 
 
 def _labels_of_len(rng, n, ch):
@@ -342,9 +365,30 @@ def gen_limit_edge_case(rng):
     return f"{tr} {edns} {cat} {keys} {hx(msg)}"
 
 
+def gen_single_zone_sibling_case(rng):
+    """One catalog entry, served through SingleZoneCatalog or the tree catalog; the QNAME is a SIBLING of the zone whose
+    label content imitates the zone name's label boundary (`x<len><first label>` + rest), or a name below such a sibling:
+    the entry is not a suffix of the QNAME (REFUSED), although its wire form ends in the zone name's wire form."""
+    while True:
+        cat, names = gen_catalog(rng, rng.random() < 0.7)
+        if cat != "-" and ";" not in cat and cat.split(",")[2] != "R" and names and names[0][0]:
+            break
+    zone, cl = names[0]
+    fake = bytes([rng.choice([0x78, 0x58, 0x2A])]) + bytes([len(zone[0])]) + (zone[0].swapcase() if rng.random() < 0.3 else zone[0])
+    qn = rng.choice([[], [b"www"], [b"a", b"b"]]) + [fake] + zone[1:]
+    if rng.random() < 0.15:
+        qn = rng.choice([[], [b"www"]]) + zone          # control: really inside the zone
+    msg = u16(rng.randrange(65536)) + u16(rng.choice([0, 0x0100])) + u16(1) + u16(0) + u16(0) + u16(0) + \
+        enc_name(qn) + u16(rng.choice([1, 2, 6, 255])) + u16(cl if rng.random() < 0.9 else 1)
+    tr = rng.choice(["U", "T", "U", "T", "u", "t"])
+    return f"{tr} {rng.choice([512, 1232])} {cat} - {hx(msg)}"
+
+
 def gen_case(rng, loaded=True, mutate_p=0.3, clean_p=0.0):
     if rng.random() < 0.06:
         return gen_limit_edge_case(rng)
+    if rng.random() < 0.03:
+        return gen_single_zone_sibling_case(rng)
     if clean_p and rng.random() < clean_p:
         return gen_clean_case(rng)
     cat, names = gen_catalog(rng, loaded)
@@ -358,7 +402,16 @@ def gen_case(rng, loaded=True, mutate_p=0.3, clean_p=0.0):
         req = gen_request(rng, names)
         if rng.random() < mutate_p:
             req = dnsgen.mutate(rng, req)
-    return f"{tr} {edns} {cat} {keys} {hx(req)}"
+    return single_zone_variant(rng, f"{tr} {edns} {cat} {keys} {hx(req)}")
+
+
+def single_zone_variant(rng, line):
+    """a catalog description with exactly one entry is served, half of the time, through the crate's OTHER Catalog
+    implementation, SingleZoneCatalog (upper-case transport letter; same model: a flat catalog with one entry)"""
+    f = line.split(" ")
+    if f[2] != "-" and ";" not in f[2] and f[2].split(",")[2] != "R" and rng.random() < 0.5:
+        f[0] = f[0].upper()
+    return " ".join(f)
 
 
 # ---------------------------------------------------------------- parsing result lines
